@@ -249,6 +249,63 @@ M('C01', 'key-algorithm-getter-normalises', PGP, "        return self._signature
 M('C01', 'parse-halg-before-pubalg', PK, "        self.sigtype = packet[0]\n        del packet[0]\n\n        self.pubalg = packet[0]\n        del packet[0]\n\n        self.halg = packet[0]\n        del packet[0]\n\n        self.subpackets.parse(packet)",
   "        self.sigtype = packet[0]\n        del packet[0]\n\n        self.halg = packet[0]\n        del packet[0]\n\n        self.pubalg = packet[0]\n        del packet[0]\n\n        self.subpackets.parse(packet)", 'C01.5')
 
+# ---- third round: lossy codec on the signed-data path, caches keyed without the subject, a compatibility property driving the
+#      selectors, early return in aggregation, copies of the hashed area - each must be exit 1
+_NT = "    _sigsubj = collections.namedtuple('sigsubj', ['issues', 'by', 'signature', 'subject'])\n"
+_NT_VERIFIED = "    class _sigsubj(collections.namedtuple('sigsubj', ['issues', 'by', 'signature', 'subject'])):\n        __slots__ = ()\n\n        @property\n        def verified(self):\n            from .constants import SecurityIssues\n            return not self.issues & SecurityIssues.WrongSig\n"
+_NT_OK = "    class _sigsubj(collections.namedtuple('sigsubj', ['issues', 'by', 'signature', 'subject'])):\n        __slots__ = ()\n\n        @property\n        def failed(self):\n            return bool(self.issues and self.issues.causes_signature_verify_to_fail)\n\n        @property\n        def clean(self):\n            return not self.issues\n"
+for _p in ('C01', 'C17'):
+    _r = 'C01.4' if _p == 'C01' else 'C17.2'
+    M(_p, 'selectors-on-verified-property', TY, _NT, _NT_VERIFIED, _r,
+      more=[(TY, _GOOD, "        yield from (sigsub for sigsub in self._subjects if sigsub.verified)"), (TY, _BAD, "        yield from (sigsub for sigsub in self._subjects if not sigsub.verified)")])
+    M(_p, 'bad-on-clean-property', TY, _NT, _NT_OK, _r, more=[(TY, _BAD, "        yield from (sigsub for sigsub in self._subjects if not sigsub.clean)")])
+    M(_p, 'bool-last-record-decides', TY, _BOOL,
+      "        verified = False\n        for sigsub in self._subjects:\n            verified = (\n                sigsub.issues is SecurityIssues.OK\n                or (sigsub.issues and not sigsub.issues.causes_signature_verify_to_fail)\n            )\n        return bool(verified)", _r)
+    M(_p, 'bool-early-return-on-ok', TY, _BOOL,
+      "        for sigsub in self._subjects:\n            if sigsub.issues is SecurityIssues.OK:\n                return True\n            if sigsub.issues.causes_signature_verify_to_fail:\n                return False\n        return True", _r)
+    M(_p, 'bool-counts-majority', TY, _BOOL,
+      "        good = sum(1 for sigsub in self._subjects if not (sigsub.issues and sigsub.issues.causes_signature_verify_to_fail))\n        return good * 2 >= len(self._subjects)", _r)
+    T(_p, 'twin-selectors-on-failed-property', TY, _NT, _NT_OK,
+      more=[(TY, _GOOD, "        yield from (sigsub for sigsub in self._subjects if not sigsub.failed)"), (TY, _BAD, "        yield from (sigsub for sigsub in self._subjects if sigsub.failed)")])
+M('C17', 'verify-returns-inside-loop', PGP, _WRONGSIG_REC + "\n\n        return sigv\n", _WRONGSIG_REC + "\n                    return sigv\n\n        return sigv\n", 'C17.3')
+M('C17', 'delegation-skipped-silently', PGP, "                sigv &= self.subkeys[sig.signer].verify(subj, sig)\n", "                if sig.signer not in self.subkeys:\n                    continue\n                sigv &= self.subkeys[sig.signer].verify(subj, sig)\n".replace("not in", "in"), 'C17.3')
+_CACHE_OLD = "                    verified = self._key.verify(sig.hashdata(subj), sig.__sig__, getattr(hashes, sig.hash_algorithm.name)())\n                    if verified is NotImplemented:\n                        raise NotImplementedError(sig.key_algorithm)\n"
+_CACHE_NEW = "                    cache = self.__dict__.setdefault('_verify_cache', {})\n                    verified = cache.get(bytes(sig.__sig__[0].to_mpibytes()))\n                    if verified is None:\n                        verified = self._key.verify(sig.hashdata(subj), sig.__sig__, getattr(hashes, sig.hash_algorithm.name)())\n                        if verified is NotImplemented:\n                            raise NotImplementedError(sig.key_algorithm)\n                        cache[bytes(sig.__sig__[0].to_mpibytes())] = verified\n"
+M('C01', 'verdict-cache-keyed-without-subject', PGP, _CACHE_OLD, _CACHE_NEW, 'C01.2')
+M('C17', 'verdict-cache-keyed-without-subject', PGP, _CACHE_OLD, _CACHE_NEW, 'C17.4')
+M('C01', 'hashdata-cache-keyed-by-signature-only', PGP, "                    verified = self._key.verify(sig.hashdata(subj), sig.__sig__,",
+  "                    hashed = getattr(sig, '_hashdata_cache', None) or sig.hashdata(subj)\n                    sig._hashdata_cache = hashed\n                    verified = self._key.verify(hashed, sig.__sig__,", 'C01.2')
+# C01.6: the C05 analysis under the C01 rule id
+M('C01', 'subpackets-copy-refiled-after-capture', FL, "        sp._hashed_sp = self._hashed_sp.copy()\n        sp._unhashed_sp = self._unhashed_sp.copy()\n        sp._hashed_raw = copy.copy(self._hashed_raw)\n",
+  "        sp._hashed_raw = copy.copy(self._hashed_raw)\n\n        for (name, _), hsp in self._hashed_sp.items():\n            sp['h_' + name] = hsp\n\n        for (name, _), uhsp in self._unhashed_sp.items():\n            sp[name] = uhsp\n", 'C01.6')
+M('C01', 'subpackets-copy-drops-capture', FL, "        sp._hashed_raw = copy.copy(self._hashed_raw)\n", "", 'C01.6')
+M('C01', 'hashed-area-replay-only-when-small', FL, "        if self._hashed_raw is not None:\n            # signatures", "        if self._hashed_raw is not None and len(self._hashed_raw) < 4096:\n            # signatures", 'C01.6')
+M('C01', 'hashed-area-capture-off-by-one', FL, "        hashed_raw = packet[:2 + hl]", "        hashed_raw = packet[:1 + hl]", 'C01.6')
+M('C01', 'hashed-area-not-invalidated', FL, "            d, key = self._hashed_sp, key[2:]\n            self._hashed_raw = None\n", "            d, key = self._hashed_sp, key[2:]\n", 'C01.6')
+M('C01', 'trailer-bypasses-received-octets', PGP, "        hcontext += self._signature.subpackets.__hashbytearray__()", "        hcontext += self._signature.subpackets.__bytearray__()[:2 + sum(len(sp) for sp in self._signature.subpackets._hashed_sp.values())]", 'C01')
+# C01.7: the signed data of a message is a one-to-one image of the received octets
+_LIT_T = "            return self._contents.decode('latin-1')\n"
+_LIT_U = "            return self._contents.decode('utf-8')\n\n        return self._contents\n"
+M('C01', 'literal-text-decoded-with-replace', PK, "        if self.format == 't':\n" + _LIT_T + "\n        if self.format == 'u':\n            return self._contents.decode('utf-8')\n",
+  "        if self.format in ('t', 'u'):\n            return self._contents.decode('utf-8', 'replace')\n", 'C01.7')
+M('C01', 'literal-utf8-errors-ignore', PK, _LIT_U, "            return self._contents.decode('utf-8', errors='ignore')\n\n        return self._contents\n", 'C01.7')
+M('C01', 'literal-text-ascii-ignore', PK, _LIT_T, "            return self._contents.decode('ascii', 'ignore')\n", 'C01.7')
+M('C01', 'literal-text-stripped', PK, _LIT_T, "            return self._contents.decode('latin-1').rstrip()\n", 'C01.7')
+M('C01', 'literal-text-utf16', PK, _LIT_U, "            return self._contents.decode('utf-16')\n\n        return self._contents\n", 'C01.7')
+M('C01', 'literal-binary-truncated', PK, _LIT_U, "            return self._contents.decode('utf-8')\n\n        return self._contents[:65536]\n", 'C01.7')
+M('C01', 'message-text-normalised', PGP, "        if self.type == 'literal':\n            return self._message.contents\n", "        if self.type == 'literal':\n            return self._message.contents.strip()\n", 'C01.7')
+M('C01', 'signed-data-trailing-blanks-for-literal', PGP, "            return re.subn(r'[ \\t]+(?=\\r?$)', '', self.message, flags=re.MULTILINE)[0]\n\n        return self.message\n",
+  "            return re.subn(r'[ \\t]+(?=\\r?$)', '', self.message, flags=re.MULTILINE)[0]\n\n        return self.message.rstrip()\n", 'C01.7')
+M('C01', 'verify-pairs-casefolded-message', PGP, "                    sspairs.append((sig, subject._signed_data))", "                    sspairs.append((sig, subject._signed_data.lower()))", 'C01.7')
+M('C01', 'hashdata-text-encoded-with-replace', PGP, "                subject = subject.encode('utf-8')\n            except UnicodeEncodeError:\n                subject = subject.encode('charmap')",
+  "                subject = subject.encode('utf-8', 'replace')\n            except UnicodeEncodeError:\n                subject = subject.encode('charmap')", 'C01.7')
+M('C01', 'hashdata-text-fallback-ascii-ignore', PGP, "                subject = subject.encode('charmap')", "                subject = subject.encode('ascii', 'ignore')", 'C01.7')
+M('C01', 'cleartext-decoded-with-replace', TY, "        return text.decode('utf-8')\n\n    @abc.abstractmethod", "        return text.decode('utf-8', 'replace')\n\n    @abc.abstractmethod", 'C01.7')
+T('C01', 'twin-literal-codec-keywords', PK, _LIT_T, "            return self._contents.decode(encoding='latin-1', errors='strict')\n")
+T('C01', 'twin-literal-codec-alias', PK, _LIT_T, "            return self._contents.decode('iso-8859-1')\n")
+T('C01', 'twin-literal-format-local', PK, "        if self.format == 't':\n" + _LIT_T + "\n        if self.format == 'u':\n            return self._contents.decode('utf-8')\n",
+  "        fmt = self.format\n        if fmt == 'u':\n            return self._contents.decode('utf-8')\n        elif fmt == 't':\n            return self._contents.decode('latin-1')\n")
+
 # ---- further spellings of the same functions (generalisation guards)
 T('C17', 'twin-pred-len-list', CO, _PRED,
   "        hits = [f for f in (SecurityIssues.WrongSig, SecurityIssues.Expired, SecurityIssues.Disabled, SecurityIssues.Invalid, SecurityIssues.NoSelfSignature) if f & self]\n        return len(hits) > 0")
